@@ -10,7 +10,7 @@ func C08(run *core.Run) {
 	}
 	mergeCheck(run, "req", n)
 	mergeCanary(run, "req")
-	run.Set("rule", "seeded free-running scenarios: NewMergeHandler over 2-4 scripted children (stored events sorted / unsorted / duplicated / non-matching, EOSE before or after the events, live events after EOSE, shared events between children) and a pipelining client (REQ with 6 filter lists incl. limit 0/1/2, CLOSE before/after EOSE, re-REQ of an id only after its EOSE); client and children record csnd / cgot / chrecv / emits observations in one total order; TLC validates every prefix against MergeObs!StepOK (one EOSE after all children's, none after a close that precedes a child's EOSE, stored phase matching / distinct / ordered / limited, provenance and label of every forwarded message) and the drained end against QuiesceOK (EOSE delivered, live events after EOSE forwarded in child order). distinct_nontrivial = distinct scenarios")
+	run.Set("rule", "seeded free-running scenarios: NewMergeHandler over 2-4 scripted children (stored events sorted / unsorted / duplicated / non-matching, two of them tagged (two values of one tag name; two tag names), EOSE before or after the events, live events after EOSE, shared events between children) and a pipelining client (REQ with 8 filter lists incl. limit 0/1/2 and two tag conditions, CLOSE before/after EOSE, re-REQ of an id only after its EOSE); client and children record csnd / cgot / chrecv / emits observations in one total order; TLC validates every prefix against MergeObs!StepOK (one EOSE after all children's, none after a close that precedes a child's EOSE, stored phase matching / distinct / ordered / limited, provenance and label of every forwarded message) and the drained end against QuiesceOK (EOSE delivered, live events after EOSE forwarded in child order). distinct_nontrivial = distinct scenarios")
 	run.Assume = append(run.Assume, "events a child emits between its own EOSE and the merged EOSE may be dropped (the property is silent)",
 		"after a CLOSE sent before the EOSE was received the EOSE is optional unless a child demonstrably emitted its EOSE after receiving the CLOSE")
 }
@@ -23,6 +23,6 @@ func C09(run *core.Run) {
 	}
 	mergeCheck(run, "okcount", n)
 	mergeCanary(run, "okcount")
-	run.Set("rule", "seeded free-running scenarios: 2-4 scripted children answering every EVENT with one OK (random verdict, reason with / without machine-readable prefix, empty reason) and every COUNT with one COUNT (random value) in request order; the client pipelines EVENTs over 3 ids (repeats in flight) and COUNTs over 2 subscription ids; TLC validates against MergeObs: the k-th OK for an id follows the k-th submission and every child's k-th verdict, accepted iff all accepted, rejected text starts with the lowest-index rejecting child's reason; COUNT = max; at quiescence #OK = #EVENT and #COUNT replies = #COUNT requests. distinct_nontrivial = distinct scenarios")
+	run.Set("rule", "seeded free-running scenarios: 2-4 scripted children answering every EVENT with one OK (random verdict, reason with / without machine-readable prefix, empty reason) and every COUNT with one COUNT (random value, approximate flag absent / true / false independently of it) in request order; the client pipelines EVENTs over 3 ids (repeats in flight) and COUNTs over 2 subscription ids; TLC validates against MergeObs: the k-th OK for an id follows the k-th submission and every child's k-th verdict, accepted iff all accepted, rejected text starts with the lowest-index rejecting child's reason; COUNT = max; at quiescence #OK = #EVENT and #COUNT replies = #COUNT requests. distinct_nontrivial = distinct scenarios")
 	run.Assume = append(run.Assume, "children answer each EVENT with exactly one OK and each COUNT with exactly one COUNT, in request order (the property's premise)")
 }
